@@ -423,6 +423,17 @@ impl Brc20ProgDatabase {
     pub(crate) fn verif_set_cached_height(&mut self, h: u64) {
         self.latest_block_number = Some((h, B256::ZERO));
     }
+    /// an uncommitted block-number->hash row
+    pub(crate) fn verif_cache_block_hash(&mut self, n: u64, h: [u8; 32]) {
+        self.db_block_number_to_hash.as_mut().unwrap().verif_put_cache(n, B256ED::from(h));
+    }
+    /// an uncommitted block-hash->number row
+    pub(crate) fn verif_cache_block_number(&mut self, h: [u8; 32], n: u64) {
+        self.db_block_hash_to_number.as_mut().unwrap().verif_put_cache(
+            B256ED::from(h),
+            BlockHistoryCacheData::<U64ED>::verif_from(&[(n, Some(U64ED::from(n)))]),
+        );
+    }
     /// a stored block-number->hash row (the number is then "known")
     pub(crate) fn verif_plant_block_hash(&mut self, n: u64) {
         self.db_block_number_to_hash.as_mut().unwrap().verif_store().verif_plant_last(&n.to_be_bytes(), &[9u8; 32]);
